@@ -14,7 +14,7 @@ SIZE = {"quick": 2, "thorough": 3}
 def all_programs(tier, size=None, only=None, must=None, key=None, tails=(True,), sigs=(None,)):
     k = key or (tier, size, only and tuple(sorted(only)), must and tuple(sorted(must)), tails, sigs)
     if k not in _PROGS:
-        out = []
+        out = list(M.extra_programs()) if (only is None and must is None) else []
         for p in M.programs(size or SIZE[tier], tier, only=only, must=must, tails=tails, sigs=sigs):
             try:
                 compile(p.src, "<minipy>", "exec")
